@@ -208,6 +208,13 @@ func GenMsg(r *rand.Rand, mode string, recMap, big bool) *Msg {
 		m.Rec = rec()
 	case "forward":
 		m.Entries = GenEntries(r, big)
+		if recMap { // records are maps (the Forward specification's shape): no bare nil records
+			for i := range m.Entries {
+				if m.Entries[i].Rec.K == 'N' {
+					m.Entries[i].Rec = Map(nil, nil)
+				}
+			}
+		}
 	case "packed":
 		m.Stream = GenBytes(r, big)
 		if r.Intn(2) == 0 {
